@@ -17,6 +17,7 @@ import (
 	"os"
 	"regexp"
 	"runtime/debug"
+	"strconv"
 	"strings"
 	"sync/atomic"
 
@@ -50,6 +51,18 @@ var sandboxDir string
 
 // runExtensions turns language extensions on for run/fragment mode (the CLI default is off).
 var runExtensions bool
+
+// interpreter configuration of the current input (C07 rotates it across inputs): optimizer level 0..3,
+// registers and constant folding on/off. Process-global in ego, so it is applied before every run.
+var (
+	curOpt int
+	curReg bool
+	curCF  bool
+)
+
+func curConfig(mode string) egorun.Config {
+	return egorun.Config{Sandbox: 1, Opt: curOpt, Registers: curReg, ConstFold: curCF, Fragment: mode == "fragment", Extensions: runExtensions}
+}
 
 // initRunner prepares the process-global interpreter state once.
 func initRunner(sandbox string) {
@@ -89,7 +102,7 @@ func runInput(mode, src string) (o outcome) {
 
 	switch mode {
 	case "run", "fragment":
-		r := egorun.Run(src, egorun.Config{Sandbox: 1, Opt: 0, Fragment: mode == "fragment", Extensions: runExtensions})
+		r := egorun.Run(src, curConfig(mode))
 		o.Out, o.Err, o.Panic = r.Out, r.Err, r.Panic
 
 		switch {
@@ -103,8 +116,10 @@ func runInput(mode, src string) (o outcome) {
 			o.Class = "ok"
 		}
 	case "test":
+		egorun.Apply(curConfig(mode))
 		o = runTestMode(src)
 	case "server", "console":
+		egorun.Apply(curConfig(mode))
 		o = runServerMode(src, mode == "console")
 	default:
 		o.Class = "error"
@@ -124,7 +139,7 @@ func runTestMode(src string) (o outcome) {
 		symbols.RootSymbolTable.SetAlways(defs.ExtensionsVariable, false)
 	}()
 
-	settings.SetDefault(defs.OptimizerSetting, "0")
+	settings.SetDefault(defs.OptimizerSetting, strconv.Itoa(curOpt))
 	settings.SetDefault(defs.ExtensionsEnabledSetting, defs.True)
 	symbols.RootSymbolTable.SetAlways(defs.ExtensionsVariable, true)
 	symbols.RootSymbolTable.SetAlways("_testcount", 0)
